@@ -75,7 +75,8 @@ Proof.
       destruct (Hq3 q cq Hfq) as [x [p [cx [G1 [G2 [G3 [G4 G5]]]]]]].
       exists x, p, cx. repeat split; auto.
   - exact (hi_qkind D h HI).
-  - exact (hi_drag D h HI).
+  - destruct (hi_drag D h HI) as [od [E Hd]]. exists od. split; [exact E|]. intros d Ed Hnr Hl. apply Hanc. apply Hd; auto.
+    rewrite <- (Fw root); auto.
   - intros a Ha. change (a < Pos.succ (nextw h))%positive.
     destruct (Pos.eq_dec a w) as [E|E]; [subst a; unfold w; lia|].
     rewrite Fw in Ha; auto. pose proof (hi_nextw D h HI a Ha). lia.
@@ -139,6 +140,7 @@ Proof.
     exists x, px, cx. repeat split; auto.
     + destruct (HF x cx G3) as [H1 _]. congruence.
     + eapply cells_by_anc; eauto. intros a c Ha Hfa _. destruct (HF a c Hfa) as [H1 _]. exact H1.
+  - apply (drag_kept D h h' F HI CB). intros a c Hfa. destruct (HF a c Hfa) as [H1 _]. exact H1.
 Qed.
 
 (* ---- a detached window becomes a child of [p] ------------------------------------------------------------ *)
@@ -211,4 +213,14 @@ Proof.
     + destruct (HF x cx G3) as [_ [_ [_ [H4 _]]]]. destruct (H4 (Hnotkid x cx px G3 G4)) as [H5 _]. congruence.
     + eapply cells_by_anc; eauto. intros a c Ha Hfa _.
       destruct (HF a c Hfa) as [_ [_ [_ [H4 _]]]]. destruct (H4 (Hpath a Ha)) as [H5 _]. exact H5.
+  - (* the drag source: the detached window [w] is not on its way to the root *)
+    intros d Hd Hnr Hl. destruct (hi_drag D h HI) as [od [E Hda]]. rewrite E in Hd. inversion Hd; subst od.
+    pose proof (Hda d eq_refl Hnr Hl) as G5.
+    assert (Hpath : forall a, anc h d a -> a <> w).
+    { intros a Ha E'. subst a. destruct (anc_linear h d w Ha root G5) as [H|H].
+      - apply Hwr. symmetry. exact (anc_top h w root cw H Hw Hwp).
+      - pose proof (anc_live_l h root w H) as Hl'. destruct (findw h root) as [cr|] eqn:Hfr; [|congruence].
+        apply Hwr. exact (anc_top h root w cr H Hfr (hi_root_parent D h HI cr Hfr)). }
+    eapply cells_by_anc; eauto. intros a c Ha Hfa _.
+    destruct (HF a c Hfa) as [_ [_ [_ [H4 _]]]]. destruct (H4 (Hpath a Ha)) as [H5 _]. exact H5.
 Qed.
